@@ -361,6 +361,8 @@ partial def readCases (h : IO.FS.Stream) : IO (Array (String × Array Driver.Che
   let mut curOp : Option (List String) := none
   let mut curOut : Array String := #[]
   let mut started := false
+  let mut endLive := 0
+  let mut endBytes := 0
   repeat
     let line ← h.getLine
     if line.isEmpty then break
@@ -373,7 +375,13 @@ partial def readCases (h : IO.FS.Stream) : IO (Array (String × Array Driver.Che
     else if l.startsWith "# " then
       if let some op := curOp then steps := steps.push { op := op, out := curOut.toList }
       curOp := some (Driver.tokens (l.drop 2).toString); curOut := #[]; started := true
-    else if l.startsWith "end live=" || l.startsWith "stats " then
+    else if l.startsWith "end live=" then
+      let fs := Driver.Check.fields (Driver.tokens l)
+      endLive := (Driver.Check.getNat fs "live").getD 0
+      endBytes := (Driver.Check.getNat fs "bytes").getD 0
+      if let some op := curOp then steps := steps.push { op := op, out := curOut.toList, live := endLive, bytes := endBytes }
+      curOp := none; curOut := #[]
+    else if l.startsWith "stats " then
       pure ()
     else
       curOut := curOut.push l
@@ -392,6 +400,14 @@ def checkMain (prop : String) (path : String) : IO Unit := do
     | "C14" => some Driver.Check.checkC14
     | "C15" => some Driver.Check.checkC15
     | "C16" => some Driver.Check.checkC16
+    | "C02" => some Driver.Check.checkC02
+    | "C03" => some Driver.Check.checkC03
+    | "C04" => some Driver.Check.checkC04
+    | "C05" => some Driver.Check.checkC05
+    | "C06" => some Driver.Check.checkC06
+    | "C07" => some Driver.Check.checkC07
+    | "C08" => some Driver.Check.checkC08
+    | "C19" => some Driver.Check.checkC19
     | _ => none
   match f with
   | none => stdout.putStrLn s!"no-predicate {prop}"
